@@ -134,7 +134,7 @@ func (n *NSQD) lookupLoop() {
 				// notify all nsqlookupds that a new channel exists, or that it's removed
 				branch = "channel"
 				channel := val
-				if channel.Exiting() {
+				if channel.Exiting() && !n.channelExistsNow(channel.topicName, channel.name) {
 					cmd = nsq.UnRegister(channel.topicName, channel.name)
 				} else {
 					cmd = nsq.Register(channel.topicName, channel.name)
@@ -143,7 +143,7 @@ func (n *NSQD) lookupLoop() {
 				// notify all nsqlookupds that a new topic exists, or that it's removed
 				branch = "topic"
 				topic := val
-				if topic.Exiting() {
+				if topic.Exiting() && !n.topicExistsNow(topic.name) {
 					cmd = nsq.UnRegister(topic.name, "")
 				} else {
 					cmd = nsq.Register(topic.name, "")
@@ -181,6 +181,24 @@ func (n *NSQD) lookupLoop() {
 
 exit:
 	n.logf(LOG_INFO, "LOOKUP: closing")
+}
+
+// topicExistsNow and channelExistsNow report whether a live object of that
+// name exists at this moment. Notifications are delivered in no particular
+// order: the one for a deleted topic/channel can arrive after the one for
+// its re-creation under the same name, and must not unregister the new one.
+func (n *NSQD) topicExistsNow(topicName string) bool {
+	t, err := n.GetExistingTopic(topicName)
+	return err == nil && !t.Exiting()
+}
+
+func (n *NSQD) channelExistsNow(topicName string, channelName string) bool {
+	t, err := n.GetExistingTopic(topicName)
+	if err != nil || t.Exiting() {
+		return false
+	}
+	c, err := t.GetExistingChannel(channelName)
+	return err == nil && !c.Exiting()
 }
 
 func in(s string, lst []string) bool {
